@@ -179,7 +179,6 @@ def _run_variant(item, kind):
 SEEDED_LIMITS = {
     'C16-m8': ('C11', 1, 'a defect of the n-D distance kernel: reported by C02 / C10 / C11; the k-means check has no kernel rules'),
     'C07-m8': ('C07', 0, 'LIMIT: the work list is built by a helper with a cached row series; the obligation is undecided, nothing is reported'),
-    'C17-m7': ('C17', 2, 'LIMIT: the refactored best_alignment is not recognised; the check stops with an ANALYSIS-ERROR (no verdict)'),
 }
 
 
